@@ -11,6 +11,7 @@ import (
 	"runtime"
 	"sort"
 	"strings"
+	"time"
 
 	dirkutil "github.com/attestantio/dirk/util"
 	"github.com/mitchellh/go-homedir"
@@ -37,7 +38,12 @@ func parseCommon(name string, args []string, extra func(fs *flag.FlagSet)) *comm
 	_ = fs.Parse(args)
 	_ = os.MkdirAll(cf.out, 0o755)
 	if abs, err := filepath.Abs(cf.out); err == nil {
-		watchInit(abs)
+		// far above anything a request needs, also on a loaded machine: the limit only decides how soon a hang is reported
+		limit := 300 * time.Second
+		if cf.tier == "thorough" {
+			limit = 1200 * time.Second
+		}
+		watchInit(abs, limit)
 	}
 	return cf
 }
